@@ -18,6 +18,8 @@ class RawTok(Model):
     """raw ndarray / number behind an Array"""
     kinds = ("ndarray",)
 
+    dtype = "float64"          # what an ndarray holds unless told otherwise (instances made with dtype=... carry their own)
+
     def __init__(self, origin, shape=(3,), dtype=None):
         self.origin, self.shape = origin, tuple(shape)
         if dtype is not None:
@@ -33,7 +35,7 @@ class RawTok(Model):
         return RawTok(("idx", self.origin, key_of(idx, self.shape)), idx_shape(self.shape, idx))
 
     def copy(self):
-        return RawTok(("copy", self.origin), self.shape, getattr(self, "dtype", None))
+        return RawTok(("copy", self.origin), self.shape, self.__dict__.get("dtype"))
 
     def item(self, *a):
         """ndarray.item(): a PYTHON scalar (numpy treats it as a weak operand: float32 data stay float32), not the buffer"""
@@ -43,6 +45,8 @@ class RawTok(Model):
         return Marker("pyscalar", self.origin)
 
     def astype(self, dtype, *a, **k):
+        if k.get("copy") is False and repr(dtype) == repr(self.dtype):
+            return self         # numpy: no copy when nothing has to change
         return RawTok(("astype", self.origin, repr(dtype)), self.shape, dtype)
 
     def _bin(self, op, o):
@@ -244,9 +248,10 @@ class ArrTok(Model):
 
     @property
     def values(self):
+        dt = self.dtype if self.dtype != "float64" else None
         if RAW_UNITS[0]:
-            return RawTok(("raw", self.origin, self.unit.name), self.shape)
-        return RawTok(self.origin, self.shape)
+            return RawTok(("raw", self.origin, self.unit.name), self.shape, dt)
+        return RawTok(self.origin, self.shape, dt)
 
     @values.setter
     def values(self, v):
